@@ -355,10 +355,72 @@ def placement_rules(ctx):
     okm = len(merges) == 1 and merges[0].args[1] == call.args[0] and not any(isinstance(a, App) and a.op == "kw" for a in merges[0].args)
     R.check("C07-D2b placement", okm, "each slot is merged into the domain image with the default overlap policy (error)", mod=fi.module,
             node=fi.node, function=fq, expected="combined_hex.merge(envelope_hex)", found=repr(merges)[:200])
+    # per-domain files, decided on the storage-file creator with the single-domain writer followed and the loop over the domain
+    # enumeration unrolled: one guarded write per domain, named after it, holding what as_intelhex(<that domain>) returned -
+    # wherever the writer's statements live
+    R.rule("C07-D2c per-domain file", 2, "one file per domain, written only when the domain has envelopes")
+    if not _per_domain_files_unrolled(ctx):
+        _per_domain_writer_rules(ctx, ev)
+
+
+def _per_domain_files_unrolled(ctx):
+    from sa.teval import teval, Unknown
+    R, repo = ctx.report, ctx.repo
+    fi = repo.func(IMG, "ImageCreator._create_suit_storage_files_for_boot")
+    fq = ctx.fq(fi)
+    evi = Evaluator(repo, inline_depth=1, inline_filter=lambda f: f.name == "_create_single_domain_storage_file_for_boot")
+    outs = [o for o in evi.outcomes(fi) if o.kind == "return"]
+    dom = repo.cls(IMG, "ManifestDomain")
+    members = [n for n, _v in evi.enum_members(dom)]
+    calls = [(x.args[0], g) for o in outs for x, g in _with_guards(o.effects) if isinstance(x, App) and x.op == "eff:call" and isinstance(x.args[0], App)]
+    wr = [(c, g) for c, g in calls if c.op == "meth:write_hex_file"]
+    mg = [(c, g) for c, g in calls if c.op == "meth:merge"]
+    if not wr or not members or len(outs) != 1:
+        return False
+    files = {}
+    try:
+        for c, g in wr:
+            files.setdefault(teval(c.args[1], {"param:dir_name": "<dir>"}), []).append((c, g))
+    except Unknown:
+        return False  # the loop over the domains is not unrolled here: the writer's own rules decide
+
+    def member_of(t):
+        return t.args[1].v if isinstance(t, App) and t.op == "enum" and isinstance(t.args[0], Ref) and t.args[0].obj is dom else None
+
+    bad = []
+    for m in members:
+        f_ = f"<dir>/suit_installed_envelopes_{m.lower()}_merged.hex"
+        ws = files.pop(f_, [])
+        if len(ws) != 1:
+            bad.append(f"{m}: {len(ws)} writes of {f_}")
+            continue
+        c, g = ws[0]
+        # what the written object holds: the merge into it, of as_intelhex(storage, <this domain>), under the same guard
+        into = [mc for mc, mg_ in mg if mc.args[0] == c.args[0] and norm_guard_set(mg_) == norm_guard_set(g)]
+        srcs = [mc.args[1] for mc in into if isinstance(mc.args[1], App) and mc.args[1].op == "meth:as_intelhex" and len(mc.args[1].args) > 1]
+        if len(into) != 1 or len(srcs) != 1 or member_of(srcs[0].args[1]) != m:
+            bad.append(f"{m}: file does not hold as_intelhex({m}) ({[repr(x)[:80] for x in into]})")
+            continue
+        guarded = any(isinstance(c_, App) and c_.op == "is not" and c_.args[0] == srcs[0] and c_.args[1] == Const(None) and pol for c_, pol in generic.norm_guards(g))
+        if not guarded:
+            bad.append(f"{m}: written even when as_intelhex({m}) returned nothing")
+    R.check("C07-D2c per-domain file", not bad, "each domain: written only when as_intelhex(domain) returned data, holding exactly that data", mod=fi.module,
+            node=fi.node, function=fq, expected="for every domain: if as_intelhex(domain) is not None: merge + write", found="; ".join(bad)[:300])
+    R.check("C07-D2c per-domain file", not files, "file named after the domain whose slots it holds; no other file", mod=fi.module, node=fi.node,
+            function=fq, expected="dir/suit_installed_envelopes_<domain>_merged.hex for each domain", found=f"{sorted(files)}"[:200])
+    return True
+
+
+def norm_guard_set(g):
+    return frozenset((repr(c_), bool(pol)) for c_, pol in generic.norm_guards(g))
+
+
+def _per_domain_writer_rules(ctx, ev):
+    """Proof form of C07-D2c over the single-domain writer helper (used when the loop over the domains cannot be unrolled)."""
+    R, repo = ctx.report, ctx.repo
     # single-domain writer: file name from the domain, only when something was placed
     w = repo.func(IMG, "ImageCreator._create_single_domain_storage_file_for_boot")
     wo = [o for o in ev.outcomes(w) if o.kind == "return"]
-    R.rule("C07-D2c per-domain file", 2, "one file per domain, written only when the domain has envelopes")
     wr = [(x.args[0], g) for o in wo for x, g in _with_guards(o.effects) if isinstance(x, App) and x.op == "eff:call"
           and isinstance(x.args[0], App) and x.args[0].op == "meth:write_hex_file"]
     ok = len(wr) == 1 and any(isinstance(g, App) and g.op == "is not" and g.args[1] == Const(None) and pol for g, pol in wr[0][1])
@@ -389,7 +451,8 @@ def ordering_rules(ctx):
                 c = e.args[0]
                 if c.op == "meth:add_envelope":
                     names.append("add")
-                if c.op == "call" and isinstance(c.args[0], Ref) and c.args[0].obj.name == "_create_single_domain_storage_file_for_boot":
+                if (c.op == "call" and isinstance(c.args[0], Ref) and c.args[0].obj.name == "_create_single_domain_storage_file_for_boot") \
+                        or c.op in ("meth:write_hex_file", "meth:tofile"):
                     names.append("write")
         if "write" in names and "add" in names:
             saw = True
